@@ -230,8 +230,9 @@ fn smoltcp_frame(bt: &str) -> Option<(String, String)> {
     for line in bt.lines() {
         let l = line.trim();
         if let Some(at) = l.strip_prefix("at ") {
-            if at.starts_with("/repo/src") {
-                let file = at.split(':').next().unwrap_or("").trim_start_matches("/repo/").to_string();
+            if at.contains("/repo/src/") {
+                let path = at.split(':').next().unwrap_or("");
+                let file = path[path.find("/repo/src/").unwrap() + 6..].to_string();
                 // strip generic arguments and closure markers from the function name
                 let mut f = prev_fn.clone();
                 if let Some(i) = f.find('<') {
@@ -293,7 +294,7 @@ pub fn install_panic_hook() {
 }
 
 pub fn is_smoltcp_file(file: &str) -> bool {
-    file.starts_with("/repo/src") || file.starts_with("src/")
+    file.contains("/repo/src/") || file.starts_with("src/")
 }
 
 pub fn take_panic() -> Option<PanicInfo> {
@@ -318,7 +319,10 @@ pub fn panic_key(p: &PanicInfo) -> String {
     let file = if !p.smol_file.is_empty() {
         p.smol_file.clone()
     } else {
-        p.file.strip_prefix("/repo/").unwrap_or(&p.file).to_string()
+        match p.file.find("/repo/src/") {
+            Some(i) => p.file[i + 6..].to_string(),
+            None => p.file.clone(),
+        }
     };
     format!("panic:{}:{}:{}", file, p.func, normalise_msg(&p.msg))
 }
